@@ -827,6 +827,7 @@ Proof.
   - intros st xs ys Hp.
     destruct o; try discriminate; cbn [ev1];
       try (apply ev_join_perm; [exact Hp | reflexivity]);   (* OJoinSide: left argument *)
+      try (apply ev_join_perm; [reflexivity | exact Hp]);   (* OJoinSideL: right argument *)
       try (apply Permutation_map; exact Hp);
       try (apply filter_perm; exact Hp);
       try (apply Permutation_flat_map; exact Hp);
@@ -918,6 +919,8 @@ Proof.
     rewrite (IH (flat d)); [reflexivity | symmetry; exact Hex].
   - (* ds_join_side *) intros st v lo side d dl' dr' Hex Hside Hlen Hkp. cbn [ev1].
     apply hash_join_sound; [symmetry; exact Hex | exact Hside | exact Hlen | exact Hkp].
+  - (* ds_join_side_l *) intros st v lo side d dl' dr' Hex Hside Hlen Hkp. cbn [ev1].
+    apply hash_join_sound; [exact Hside | symmetry; exact Hex | exact Hlen | exact Hkp].
   - (* dss_nil *) intros st d. reflexivity.
   - (* dss_cons *) intros st o os d d1 d2 _ IH1 _ IH2.
     rewrite ev_ops_cons. rewrite IH2. apply ev_ops_perm. exact IH1.
@@ -1139,6 +1142,70 @@ Example dstep_join_side_example_sound :
   Permutation (flat [[(1, 6065)]; [(3, 8072); (2, 21)]])
               (ev1 0 (OJoinSide JvOuter LoSortMerge [(1,10);(2,20)]) (flat [[(3,7)];[(1,5)]])).
 Proof. apply dstep_sound, dstep_join_side_example. Qed.
+
+(** * [OJoinSideL]: the side input on the LEFT of the join *)
+
+(** [ev_join] respects permutations of the right argument alone (up to permutation of the
+    result: the matches of a left element come in the order of the right side), as of the
+    left one: both are instances of [ev_join_perm] *)
+Lemma ev_join_perm_r v ls rs rs' :
+  Permutation rs rs' -> Permutation (ev_join v ls rs) (ev_join v ls rs').
+Proof. intros H. apply ev_join_perm; [reflexivity | exact H]. Qed.
+Lemma ev_join_perm_l v ls ls' rs :
+  Permutation ls ls' -> Permutation (ev_join v ls rs) (ev_join v ls' rs).
+Proof. intros H. apply ev_join_perm; [exact H | reflexivity]. Qed.
+Lemma ev1_join_side_l st v lo side xs : ev1 st (OJoinSideL v lo side) xs = ev_join v side xs.
+Proof. reflexivity. Qed.
+
+(** left join with the side input [(1,10);(2,20)] on the left: key 1 matches (jmix (Some 10)
+    (Some 5) = 11*1009+6), the unmatched SIDE element of key 2 is kept (21*1009), the unmatched
+    stream element (3,7) is dropped *)
+Example join_side_l_left :
+  ev1 0 (OJoinSideL JvLeft LoHash [(1,10);(2,20)]) [(1,5);(3,7)] = [(1, 11105); (2, 21189)].
+Proof. vm_compute. reflexivity. Qed.
+(** outer: the unmatched stream element is kept too (jmix None (Some 7) = 8) *)
+Example join_side_l_outer :
+  ev1 0 (OJoinSideL JvOuter LoHash [(1,10);(2,20)]) [(1,5);(3,7)] = [(1, 11105); (2, 21189); (3, 8)].
+Proof. vm_compute. reflexivity. Qed.
+(** not the mirror image of [OJoinSide] with the same arguments: sides and values differ *)
+Example join_side_l_vs_r :
+  ev1 0 (OJoinSide JvLeft LoHash [(1,10);(2,20)]) [(1,5);(3,7)] = [(1, 6065); (3, 8072)].
+Proof. vm_compute. reflexivity. Qed.
+(** inside a replay loop body: round 1 (state 0) gives 11105 + 21189 = 32294; round 2 (state
+    32294): (1,32299) joins (1,10): 11*1009 + 32300 = 43399, plus 21189; 32294 + 64588 = 96882 *)
+Example join_side_l_in_replay :
+  denote (PReplay (PSrc true [(1,5);(3,7)]) 2 1000000 [OAddState; OJoinSideL JvLeft LoHash [(1,10);(2,20)]])
+  = [(0, 96882)].
+Proof. vm_compute. reflexivity. Qed.
+
+(** non-vacuity of [ds_join_side_l]: a two-partition run of the outer example (the side input
+    distributed with key 1 on replica 0 and key 2 on replica 1; the stream exchanged so that
+    key 1 goes to replica 0 and key 3 to replica 1) *)
+Example dstep_join_side_l_example :
+  dstep 0 (OJoinSideL JvOuter LoHash [(1,10);(2,20)]) [[(3,7)];[(1,5)]]
+        [[(1, 11105)]; [(2, 21189); (3, 8)]].
+Proof.
+  change [[(1, 11105)]; [(2, 21189); (3, 8)]]
+    with (map (fun lr => local_join JvOuter (fst lr) (snd lr))
+              (combine [[(1,10)];[(2,20)]] [[(1,5)];[(3,7)]])).
+  apply ds_join_side_l.
+  - unfold exchange, flat. cbn [concat app]. apply perm_swap.
+  - unfold flat. cbn [concat app]. reflexivity.
+  - reflexivity.
+  - cbn [combine map fst snd app].
+    intros i j x y Hx Hy E.
+    destruct i as [|[|i]]; destruct j as [|[|j]]; cbn [nth] in Hx, Hy;
+      try reflexivity; try (destruct i; contradiction); try (destruct j; contradiction);
+      cbn [In] in Hx, Hy;
+      repeat match goal with
+             | H : _ \/ _ |- _ => destruct H
+             | H : False |- _ => contradiction
+             end; subst; cbn [fst] in E; discriminate.
+Qed.
+Example dstep_join_side_l_example_sound :
+  Permutation (flat [[(1, 11105)]; [(2, 21189); (3, 8)]])
+              (ev1 0 (OJoinSideL JvOuter LoHash [(1,10);(2,20)]) (flat [[(3,7)];[(1,5)]])).
+Proof. apply dstep_sound, dstep_join_side_l_example. Qed.
 
 Print Assumptions ev1_perm.
 Print Assumptions dstep_sound.
